@@ -223,6 +223,9 @@ def check_quantities(s, ref, geoms, where, sigp):
     if len(P) == 0:
         return
     scale = max(1.0, np.abs(P).max())
+    # a world transform within 1e-8 of identity is documented to be skipped by transform_points / apply_transform
+    if any(0 < np.abs(Tw - np.eye(4)).max() < 1e-8 for _, _, Tw in ref.instances()):
+        scale *= 40.0
     tol = 1e-9 * scale
     b = np.array([P.min(axis=0), P.max(axis=0)])
     check(s.bounds is not None and np.abs(s.bounds - b).max() <= tol, sigp + "|bounds", f"{where}: {np.asarray(s.bounds).tolist()} vs placed {b.tolist()}")
